@@ -96,7 +96,13 @@ func vpes(units ...[]byte) []byte {
 var vtsData []*astits.DemuxerData
 var vtsPos int
 
+var vtsFault bool // the demultiplexer reports a failure of the underlying stream after vtsFaultPos items (C18)
+var vtsFaultPos int
+
 func vstubNextData() (*astits.DemuxerData, error) {
+	if vtsFault && vtsPos >= vtsFaultPos {
+		return nil, verrFault
+	}
 	if vtsPos >= len(vtsData) {
 		return nil, astits.ErrNoMorePackets
 	}
